@@ -54,6 +54,8 @@ pub struct Stats {
     pub excluded: BTreeMap<&'static str, u64>,
     pub known_hits: BTreeMap<String, u64>,
     pub nontrivial: HashSet<u64>,
+    /// exhaustive parts: every leaf is a distinct case by construction, so non-trivial leaves are counted, not hashed
+    pub nontrivial_counted: u64,
     pub nontrivial_total: u64,
     pub samples: Vec<String>,
     pub trivial_samples: Vec<String>,
@@ -77,6 +79,7 @@ impl Stats {
             *self.known_hits.entry(k).or_default() += v;
         }
         self.nontrivial.extend(o.nontrivial);
+        self.nontrivial_counted += o.nontrivial_counted;
         self.nontrivial_total += o.nontrivial_total;
         for s in o.samples {
             if self.samples.len() < 8 {
@@ -89,7 +92,13 @@ impl Stats {
             }
         }
     }
+    pub fn distinct(&self) -> u64 {
+        self.nontrivial.len() as u64 + self.nontrivial_counted
+    }
     fn absorb(&mut self, ctx: &Ctx, v: &Verdict) {
+        self.absorb2(ctx, v, false)
+    }
+    fn absorb2(&mut self, ctx: &Ctx, v: &Verdict, exhaustive: bool) {
         self.evaluations += 1;
         for l in &ctx.labels {
             *self.labels.entry(l).or_default() += 1;
@@ -105,7 +114,11 @@ impl Stats {
                 self.judged += 1;
                 if let Some(h) = ctx.nontrivial {
                     self.nontrivial_total += 1;
-                    self.nontrivial.insert(h);
+                    if exhaustive {
+                        self.nontrivial_counted += 1;
+                    } else {
+                        self.nontrivial.insert(h);
+                    }
                     if let Some(d) = &ctx.desc {
                         if self.samples.len() < 8 {
                             self.samples.push(d.clone());
@@ -399,7 +412,7 @@ fn exhaustive_worker(
         let c0 = choices.first().copied().unwrap_or(0) as usize;
         let c1 = choices.get(1).copied().unwrap_or(0) as usize;
         let c2 = choices.get(2).copied().unwrap_or(0) as usize;
-        let mine = (c0 * 961 + c1 * 31 + c2) % nworkers == worker;
+        let mine = (splitmix((c0 as u64) << 40 | (c1 as u64) << 20 | c2 as u64) % nworkers as u64) as usize == worker;
         if mine {
             n_mine += 1;
             ctx.want_desc = worker == 0 && (n_mine % 5000 == 1);
@@ -424,7 +437,7 @@ fn exhaustive_worker(
             }
         };
         if mine {
-            stats.absorb(&ctx, &v);
+            stats.absorb2(&ctx, &v, true);
             if let Verdict::Fail { sig, detail } = v {
                 if let Some(id) = is_known(&env.findings, &sig) {
                     *stats.known_hits.entry(id).or_default() += 1;
@@ -539,6 +552,8 @@ pub struct ReplayFile {
     pub no_exclusions: bool,
     pub sig: String,
     pub expect: String,
+    /// the case as rendered when the file was written; replay refuses a file that no longer decodes to it
+    pub case: String,
 }
 
 pub fn load_replay(path: &std::path::Path) -> Result<ReplayFile, String> {
@@ -558,6 +573,7 @@ pub fn load_replay(path: &std::path::Path) -> Result<ReplayFile, String> {
         no_exclusions: j["no_exclusions"].as_bool().unwrap_or(false),
         sig: j["sig"].as_str().unwrap_or("").to_string(),
         expect: j["expect"].as_str().unwrap_or("pass").to_string(),
+        case: j["case"].as_str().unwrap_or("").to_string(),
     })
 }
 
@@ -628,7 +644,11 @@ pub fn run_property(prop: &Property, thorough: bool, seed: u64, rep: &mut Report
             }
         };
         corpus_n += 1;
-        let (v, _d) = replay_case(prop, &rf, thorough);
+        let (v, d) = replay_case(prop, &rf, thorough);
+        if !rf.case.is_empty() && !d.is_empty() && d != rf.case {
+            rep.line(&format!("harness: corpus file {} no longer decodes to its recorded case (generator changed) — regenerate it", f.display()));
+            return 2;
+        }
         let rel = f.strip_prefix(verif_root()).unwrap_or(f).to_string_lossy().into_owned();
         let witness_of = my.iter().find(|k| k.kind == "known" && k.witness == rel);
         match (&v, witness_of) {
@@ -725,7 +745,7 @@ pub fn run_property(prop: &Property, thorough: bool, seed: u64, rep: &mut Report
             "evaluations": stats.evaluations,
             "judged": stats.judged,
             "nontrivial_total": stats.nontrivial_total,
-            "distinct_nontrivial": stats.nontrivial.len(),
+            "distinct_nontrivial": stats.distinct(),
             "nontrivial_pct_of_judged": pct,
             "discarded": stats.discards,
             "labels": stats.labels,
@@ -765,7 +785,7 @@ pub fn run_property(prop: &Property, thorough: bool, seed: u64, rep: &mut Report
         seed,
         total.evaluations,
         total.judged,
-        total.nontrivial.len(),
+        total.distinct(),
         corpus_n,
         violations,
         known_lines.len(),
@@ -815,7 +835,7 @@ fn write_evidence(
         "level": prop.level,
         "coverage": {
             "evaluations": total.evaluations,
-            "distinct_nontrivial": total.nontrivial.len(),
+            "distinct_nontrivial": total.distinct(),
             "rule": prop.rule,
             "samples": samples,
             "exhaustive": exhaustive,
